@@ -221,10 +221,26 @@ class Real:
             self.tm2 = transaction.TransactionManager()
             self.c2 = self.db.open(self.tm2)
             self.tmu = transaction.TransactionManager()
+            # connection B: crosses a transaction boundary in the middle of the undo's commit, at the
+            # one point where another thread can run without waiting for a lock of the committer:
+            # right after the storage's tpc_finish has returned (the undo is lastTransaction() then)
+            self.tm3 = transaction.TransactionManager()
+            self.c3 = self.db.open(self.tm3)
+            self.peek_armed = False
+            self.peek = None
+            orig_finish = fs.tpc_finish
+
+            def finish_then_peek(txn, f=None):
+                r = orig_finish(txn, f)
+                if self.peek_armed:
+                    self.peek_armed = False
+                    self.peek = self.b_view()
+                return r
+            fs.tpc_finish = finish_then_peek
 
     def close(self):
         if self.mode == 'db':
-            for tm in (self.tm1, self.tm2, self.tmu):
+            for tm in (self.tm1, self.tm2, self.tmu, self.tm3):
                 tm.abort()
             self.db.close()
         else:
@@ -309,6 +325,31 @@ class Real:
         self.emit('inv', '1', 'I', 'well-formedness of the file the theorems assume')
         if self.mode == 'db':
             ev['conn2'] = self.conn2_view()
+
+    def b_prepare(self, parity):
+        """B holds every other known object in its cache (loaded in its current transaction), the
+        rest only as ghosts"""
+        self.tm3.abort()
+        self.c3.cacheMinimize()
+        self.tm3.begin()
+        for i, oid in enumerate(self.oids):
+            if i % 2 == parity:
+                conn_view(self.c3, oid)
+
+    def b_view(self):
+        """B crosses a transaction boundary and reads every known object in ONE transaction"""
+        self.tm3.abort()
+        self.tm3.begin()
+        return {oid.hex(): conn_view(self.c3, oid) for oid in self.oids}
+
+    def storage_view(self):
+        out = {}
+        for oid in self.oids:
+            try:
+                out[oid.hex()] = data_view(self.fs.load(oid, '')[0])
+            except POSException.POSKeyError:
+                out[oid.hex()] = 'KeyError'
+        return out
 
     def conn2_view(self):
         """what the second connection (objects cached from earlier reads) shows after its next
@@ -414,6 +455,9 @@ class Real:
                 res = 'Other:' + type(e).__name__
                 fs.tpc_abort(t)
         else:
+            ev['pre_view'] = self.storage_view()
+            self.b_prepare(len(self.events) % 2)
+            self.peek, self.peek_armed = None, True
             tm = self.tm1 if via == 'conn' else self.tmu
             tm.begin()
             tm.get().note(DESC.decode())
@@ -430,6 +474,10 @@ class Real:
                 res = 'Other:' + type(e).__name__
                 tm.abort()
             utid = fs.lastTransaction() if res == 'ok' else None
+            self.peek_armed = False
+            ev['b_peek'] = self.peek                  # B's reads in the window (None: nothing was finished)
+            ev['b_next'] = self.b_view()              # B after its next boundary
+            ev['post_view'] = self.storage_view()
         ev['res'] = res
         ev['calls'] = list(self.undo_calls)
         ev['resolver_calls'] = list(c06_classes.CALLS)
@@ -549,6 +597,15 @@ def undo_err_kind(e):
     if 'non-undoable' in msg:
         return 'err:Undo:non-undoable'
     return 'err:Undo:other'
+
+
+def conn_view(conn, oid):
+    try:
+        obj = conn.get(oid)
+        obj._p_activate()
+        return obj_view(obj)
+    except POSException.POSKeyError:
+        return 'KeyError'
 
 
 def obj_view(obj):
@@ -835,6 +892,22 @@ def oracle_check(case, events):
                 if got != exp:
                     bad('C06:load-differs-from-history', 'loadBefore(%s, %s) = %s, the history says %s'
                         % (oid, b, got, exp))
+        if kind == 'u' and ev.get('post_view') is not None:
+            pre, post = ev['pre_view'], ev['post_view']
+            changed = [o for o in post if pre.get(o) != post[o]]
+            pk = ev.get('b_peek')
+            if pk is not None:
+                cnt('b-peek:' + ('changed>=2' if len(changed) >= 2 else 'changed<2'))
+                if not (all(pk.get(o) == pre.get(o) for o in changed) or
+                        all(pk.get(o) == post[o] for o in changed)):
+                    bad('C06:undo-seen-torn', 'a connection that began a transaction right after the storage '
+                        'finished the undo of %s saw it partially: %s' % (ev['ids'], {
+                            o: dict(before=pre.get(o), after=post[o], seen=pk.get(o)) for o in changed}))
+            nx = ev['b_next']
+            for o in post:
+                if nx.get(o) != post[o]:
+                    bad('C06:stale-after-undo', 'a connection shows %s for %s after its next transaction '
+                        'boundary, the storage holds %s' % (nx.get(o), o, post[o]))
         if case['mode'] == 'db' and 'conn2' in ev:
             v = ev['conn2']
             for oid in v['view']:
